@@ -1,6 +1,7 @@
 package main
 
 import (
+	"bytes"
 	"fmt"
 	"regexp"
 	"strconv"
@@ -290,12 +291,91 @@ func checkC11(r *Run) {
 		c.st.States++
 		c.st.Nontrivial++
 	})
+	// the list comparison functions take a start offset per list: the result must not depend on either of them
+	c11ListCmp(r)
 	r.St.sample(fmt.Sprintf("%q at offsets %v", longMsgs[0][:60], c11Offsets(len(longMsgs[0]))))
 	r.Bounds["strided_input_sets"] = collectNotes
 	if len(collectNotes) > 0 {
 		r.St.Exhaustive = false
 		r.St.CapsHit = append(r.St.CapsHit, "input sets larger than the per-space cap were strided (see bounds.strided_input_sets); within the kept inputs all listed offsets were run")
 	}
+}
+
+// c11ListCmp: URIParamsEq / URIHdrsEq on every ordered pair of a list family (short lists, lists longer than the
+// 100-element scratch space, re-ordered, one value changed, with/without a must-match parameter) at every pair of
+// start offsets from {0,1,3,255,4000,65535-len}: same result as at offsets (0,0).
+func c11ListCmp(r *Run) {
+	mk := func(n int, sep string, rev bool, changed int, extra string) string {
+		var items []string
+		for i := 0; i < n; i++ {
+			v := fmt.Sprintf("v%d", i)
+			if i == changed {
+				v = "other"
+			}
+			items = append(items, fmt.Sprintf("p%d=%s", i, v))
+		}
+		if extra != "" {
+			items = append(items, extra)
+		}
+		if rev {
+			for i, j := 0, len(items)-1; i < j; i, j = i+1, j-1 {
+				items[i], items[j] = items[j], items[i]
+			}
+		}
+		return strings.Join(items, sep)
+	}
+	for _, hdrs := range []bool{false, true} {
+		sep, extra := ";", "ttl=5"
+		if hdrs {
+			sep, extra = "&", "subject=x"
+		}
+		var lists []string
+		for _, n := range []int{0, 1, 3, 99, 100, 101, 130} {
+			lists = append(lists, mk(n, sep, false, -1, extra), mk(n, sep, true, -1, extra), mk(n, sep, false, n-1, extra), mk(n, sep, false, -1, ""), mk(n, sep, true, 0, extra))
+		}
+		call := func(a []byte, ka int, b []byte, kb int) (bool, sipsp.ErrorHdr) {
+			if hdrs {
+				return sipsp.URIHdrsEq(a, ka, b, kb)
+			}
+			return sipsp.URIParamsEq(a, ka, b, kb)
+		}
+		parallelFor(r, len(lists)*len(lists), func(c *enumCtx, idx int) {
+			la, lb := lists[idx/len(lists)], lists[idx%len(lists)]
+			ok0, e0 := call([]byte(la), 0, []byte(lb), 0)
+			c.st.States++
+			c.st.Evals++
+			c.st.Nontrivial++
+			offs := func(l int) []int { return []int{0, 1, 3, 255, 4000, 65535 - l} }
+			for _, ka := range offs(len(la)) {
+				for _, kb := range offs(len(lb)) {
+					c.st.Transitions++
+					if v := c11ListCmpOne([]byte(la), []byte(lb), ka, kb, hdrs, ok0, e0); v != nil {
+						r.Col.add(v)
+					}
+				}
+			}
+		})
+	}
+}
+
+func c11ListCmpOne(la, lb []byte, ka, kb int, hdrs bool, ok0 bool, e0 sipsp.ErrorHdr) *Violation {
+	site := "URIParamsEq"
+	call := sipsp.URIParamsEq
+	if hdrs {
+		site, call = "URIHdrsEq", sipsp.URIHdrsEq
+	}
+	ba := append([]byte(strings.Repeat(";&=x", ka/4+1)[:ka]), la...)
+	bb := append([]byte(strings.Repeat("p0=zz;", kb/6+1)[:kb]), lb...)
+	ok, e := call(ba, ka, bb, kb)
+	if ok == ok0 && e == e0 {
+		return nil
+	}
+	cs := mkCase("C11listcmp", site, nil, la, nil)
+	cs.Extra = map[string]any{"other": string(lb), "ka": ka, "kb": kb, "hdrs": hdrs}
+	z := map[bool]string{true: "=0", false: ">0"}
+	return &Violation{Property: "C11", Site: site, Rule: "same-result-at-every-start-offset",
+		Class:  fmt.Sprintf("ka%s/kb%s/over100=%v", z[ka == 0], z[kb == 0], bytes.Count(la, []byte("=")) > 100 || bytes.Count(lb, []byte("=")) > 100),
+		Detail: fmt.Sprintf("offsets (%d,%d): (%v,%v); offsets (0,0): (%v,%v)", ka, kb, ok, e, ok0, e0), Case: cs}
 }
 
 type shiftReplayFn func(c *Case) []*Violation
@@ -340,7 +420,19 @@ func init() {
 		}
 		return vs
 	}
-	_ = strings.Repeat
+	replayers["C11listcmp"] = func(prop string, c *Case) []*Violation {
+		la, lb := c.input(), []byte(c.Extra["other"].(string))
+		hdrs, _ := c.Extra["hdrs"].(bool)
+		call := sipsp.URIParamsEq
+		if hdrs {
+			call = sipsp.URIHdrsEq
+		}
+		ok0, e0 := call(la, 0, lb, 0)
+		if v := c11ListCmpOne(la, lb, exInt(c.Extra, "ka"), exInt(c.Extra, "kb"), hdrs, ok0, e0); v != nil {
+			return []*Violation{v}
+		}
+		return nil
+	}
 	register("C11", &checkDef{fn: checkC11,
 		rule:        "E4: every input (all prefixes included) of the message menus and of each sub-parser's C02 space (two levels below its byte bound) is parsed at offset 0 and at each listed offset k behind junk of several kinds on the real code; verdict equal, offset and every non-empty field shifted by exactly k, all other values equal; states = inputs, transitions = parses at an offset; non-trivial = inputs with a definitive verdict",
 		quickBudget: 150 * time.Second, thorBudget: 30 * time.Minute})
